@@ -154,9 +154,12 @@ func verifH_C10_shapes() {
 	verifReach("end")
 }
 
-//verif:harness id=C10 tier=quick,thorough witness=end bounds="recursive schema (object whose property and items refer back to itself, nullable symbolic) x values nested to depth 3 (object/array/number/null) x 3 option sets; assertion = no panic and termination within the step budget"
+//verif:harness id=C10 tier=quick,thorough witness=end bounds="recursive schema (object, with or without an explicit type, whose property and items refer back to itself, nullable symbolic) x values nested to depth 3 (object/array/number/null) x 3 option sets; assertion = no panic and termination within the step budget"
 func verifH_C10_recursive() {
 	node := &Schema{Type: &Types{"object"}, Properties: Schemas{}}
+	if verifChoose("typed", 2) == 0 {
+		node.Type = nil // a recursive schema that leaves its type to be understood
+	}
 	node.Nullable = verifNondetBool("nullable")
 	self := &SchemaRef{Ref: "#/components/schemas/Node", Value: node}
 	node.Properties["next"] = self
@@ -233,5 +236,34 @@ func verifH_C10_composition_cycles() {
 	_ = a.VisitJSON(v)
 	_ = a.VisitJSON(v, MultiErrors())
 	_ = a.IsMatching(v)
+	verifReach("end")
+}
+
+//verif:harness id=C10 tier=quick,thorough witness=end depth=3000 bounds="type-less recursive schemas with nothing else in them (Node: {properties: {next: Node}}, {items: Node}, {additionalProperties: Node}, {allOf: [{properties: {next: Node}}]}, two schemas referring to each other) that pass the real Schema.Validate x values nested to depth 2: validation returns"
+func verifH_C10_untyped_recursive() {
+	node := &Schema{}
+	self := &SchemaRef{Ref: "#/components/schemas/Node", Value: node}
+	switch verifChoose("shape", 5) {
+	case 0:
+		node.Properties = Schemas{"next": self}
+	case 1:
+		node.Items = self
+	case 2:
+		node.AdditionalProperties.Schema = self
+	case 3:
+		node.AllOf = SchemaRefs{{Value: &Schema{Properties: Schemas{"next": self}}}}
+	case 4:
+		other := &Schema{Properties: Schemas{"back": self}}
+		node.Properties = Schemas{"next": {Ref: "#/components/schemas/Other", Value: other}}
+	}
+	if node.Validate(context.Background()) != nil {
+		return
+	}
+	values := []any{1.0, "s", map[string]any{}, map[string]any{"next": map[string]any{"next": map[string]any{}, "back": map[string]any{}}}, []any{[]any{}, map[string]any{"next": 1.0}}, nil}
+	v := values[verifChoose("value", len(values))]
+	_ = node.VisitJSON(v)
+	_ = node.VisitJSON(v, MultiErrors())
+	_ = node.IsMatching(v)
+	_ = node.IsEmpty()
 	verifReach("end")
 }
